@@ -249,10 +249,11 @@ theorem rankedToApproval_weight_conserved (p : RProfile) : total (rankedToApprov
 theorem rankedToApproval_is_dict (p : RProfile) : (dkeys (rankedToApproval p)).Nodup := by
   rw [rankedToApproval_eq_accum]; exact accumOne_nodup _ p
 
-/-! ## RankedToFirstNPreferences -/
+/-! ## RankedToFirstNPreferences (after fix 3e1d341: shared ranks are flattened) -/
 
 theorem firstN_eq_accum (n : Int) :
-    rankedToFirstN n = accumOne (fun b : Ballot => if b = [] then none else some (canonItems (pyTake n b))) := by
+    rankedToFirstN n = accumOne (fun b : Ballot =>
+      if b = [] then none else some (canonSet (ballotCands (pyTake n b)))) := by
   funext p
   unfold rankedToFirstN accumOne
   congr 1
@@ -261,7 +262,7 @@ theorem firstN_eq_accum (n : Int) :
 
 theorem firstN_sum (n : Int) :
     SumOfImages (rankedToFirstN n)
-      (fun b k => if b ≠ [] ∧ canonItems (pyTake n b) = k then 1 else 0) := by
+      (fun b k => if b ≠ [] ∧ canonSet (ballotCands (pyTake n b)) = k then 1 else 0) := by
   rw [firstN_eq_accum]
   intro p k
   rw [accumOne_sum]
@@ -269,20 +270,32 @@ theorem firstN_sum (n : Int) :
   intro bw _
   by_cases h : bw.1 = [] <;> simp [h]
 
-theorem firstN_additive (n : Int) (p₁ p₂ : RProfile) (k : List RankItem) :
+theorem firstN_additive (n : Int) (p₁ p₂ : RProfile) (k : Approval) :
     toFun (rankedToFirstN n (p₁ ++ p₂)) k = toFun (rankedToFirstN n p₁) k + toFun (rankedToFirstN n p₂) k :=
   (firstN_sum n).additive p₁ p₂ k
 
-theorem firstN_additive_merged (n : Int) (p₁ p₂ : RProfile) (k : List RankItem) :
+theorem firstN_additive_merged (n : Int) (p₁ p₂ : RProfile) (k : Approval) :
     toFun (rankedToFirstN n (mergeDict (p₁ ++ p₂))) k
       = toFun (rankedToFirstN n p₁) k + toFun (rankedToFirstN n p₂) k :=
   (firstN_sum n).additive_merged p₁ p₂ k
 
-/-- the key of a non-empty ballot holds exactly its first `n` places -/
-theorem firstN_single (n : Int) (b : Ballot) (w : Rat) (hb : b ≠ []) :
-    ∃ key, rankedToFirstN n [(b, w)] = [(key, w)] ∧ ∀ it, it ∈ key ↔ it ∈ pyTake n b := by
-  refine ⟨canonItems (pyTake n b), ?_, fun it => mem_canonBy _ it _⟩
-  rw [firstN_eq_accum, accumOne_single]; simp [hb]
+/-- **the documented image, at full strength** (the `_partial` theorem of the pre-fix model is gone):
+    a non-empty ballot converts to the approval set of the CANDIDATES standing at its first `n` places —
+    a canonical (strictly increasing) set of candidates, shared ranks flattened, never a set of sets -/
+theorem firstN_flat_image (n : Int) (b : Ballot) (w : Rat) (hb : b ≠ []) :
+    ∃ key : Approval, rankedToFirstN n [(b, w)] = [(key, w)] ∧ key.Pairwise (· < ·) ∧
+      ∀ c, c ∈ key ↔ ∃ it ∈ pyTake n b, c ∈ it.cands := by
+  refine ⟨canonSet (ballotCands (pyTake n b)), ?_, sorted_canonSet _, fun c => ?_⟩
+  · rw [firstN_eq_accum, accumOne_single]; simp [hb]
+  · rw [mem_canonSet, mem_ballotCands]
+
+/-- the empty ballot has no image -/
+theorem firstN_empty (n : Int) (w : Rat) : rankedToFirstN n [([], w)] = [] := rfl
+
+/-- two ballots are accumulated under the same key iff their first `n` places name the same candidates -/
+theorem firstN_same_key (n : Int) (b₁ b₂ : Ballot) :
+    canonSet (ballotCands (pyTake n b₁)) = canonSet (ballotCands (pyTake n b₂))
+      ↔ ∀ c, c ∈ ballotCands (pyTake n b₁) ↔ c ∈ ballotCands (pyTake n b₂) := canonSet_eq_iff _ _
 
 /-- for `n ≥ 0` the slice is the first `n` places -/
 theorem pyTake_nonneg {α : Type} (n : Nat) (l : List α) : pyTake (n : Int) l = l.take n := by
@@ -299,29 +312,9 @@ theorem firstN_weight_conserved (n : Int) (p : RProfile) :
 theorem firstN_is_dict (n : Int) (p : RProfile) : (dkeys (rankedToFirstN n p)).Nodup := by
   rw [firstN_eq_accum]; exact accumOne_nodup _ p
 
-/-  Full statement of the documented image (NOT true of the code, see `firstN_flat_image_witness`):
-      firstN_flat_image : ∀ n b, canonItems (pyTake n b) = (canonSet (ballotCands (pyTake n b))).map RankItem.one
-    i.e. the key is the approval set of the CANDIDATES standing at the first n places.  The code puts a
-    shared rank into the set as a nested frozenset.  Proved when the first n places are single candidates. -/
-theorem firstN_flat_image_partial (n : Int) (b : Ballot)
-    (h : ∀ it ∈ pyTake n b, ∃ c, it = RankItem.one c) :
-    canonItems (pyTake n b) = (canonSet (ballotCands (pyTake n b))).map RankItem.one := by
-  generalize pyTake n b = l at h
-  have hl : l = (ballotCands l).map RankItem.one := by
-    induction l with
-    | nil => rfl
-    | cons a t ih =>
-      obtain ⟨c, rfl⟩ := h a (by simp)
-      have := ih (fun it hit => h it (by simp [hit]))
-      simp only [ballotCands, List.flatMap_cons, RankItem.cands, List.singleton_append, List.map_cons] at this ⊢
-      rw [← this]
-  conv_lhs => rw [hl]
-  exact canonBy_map Nat.ble RankItem.le RankItem.one (fun a b e => by cases e; rfl) (fun a b => rfl) _
-
-/-- the known finding: with a shared rank among the first `n` places the key is a set containing a set -/
-theorem firstN_flat_image_witness :
-    ¬ (canonItems (pyTake 1 [RankItem.shared [1, 2], RankItem.one 3])
-        = (canonSet (ballotCands (pyTake 1 [RankItem.shared [1, 2], RankItem.one 3]))).map RankItem.one) := by
+/-- the witness of the repaired defect (before 3e1d341 the key was the nested set `{{1,2}}`) -/
+theorem firstN_shared_rank_flattened :
+    rankedToFirstN 1 [([RankItem.shared [1, 2], RankItem.one 3], 1)] = [([1, 2], 1)] := by
   decide +kernel
 
 /-! ## RankedToPositionalVotes (every rank scorer) -/
